@@ -319,7 +319,7 @@ func c18Run(res *vh.Result, ci int, c c18Cfg, rng *vh.Rng) {
 		} else if w2 := quiescent(v.gs); w2 != "" {
 			// W2: closed-system quiescence - a second dump one second later shows the event loop blocked at the same
 			// place, outside its select, while requests are retransmitted to it
-			viol("wedge:event-loop-blocked-in:"+w2, fmt.Sprintf("no progress for 5 s while %s; no wait-for cycle recognised, but the event loop stays blocked in %s; queues: %s", what, w2, v.q), v.gs)
+			viol("wedge:event-loop-blocked-in:"+strings.ReplaceAll(w2, " ", "-"), fmt.Sprintf("no progress for 5 s while %s; no wait-for cycle recognised, but the event loop stays blocked in %s; queues: %s", what, w2, v.q), v.gs)
 		} else {
 			res.Inconc(fmt.Sprintf("case %d: no progress while %s but no wait-for cycle among go-upf goroutines (%s)", ci, what, v.q))
 			abnormal = true
@@ -446,6 +446,26 @@ func c18Run(res *vh.Result, ci int, c c18Cfg, rng *vh.Rng) {
 		}
 	}
 	switch c.Scenario {
+	case "buffered-packet-burst":
+		what = "more buffered-packet notifications arrive for one PDR than its queue holds, through the real mux goroutine, while requests are being served"
+		for j := 0; j < c.Burst; j++ {
+			act := uint16(4)
+			if j%64 == 0 {
+				act = 0xc // now and then with a downlink-data notification to the SMF
+			}
+			fs.D.MulticastAsync(vh.BufferMsg(ups[0], 1, act, []byte{0x45, byte(j >> 8), byte(j)}))
+		}
+		for i := 0; i < 20; i++ {
+			up := ups[i%len(ups)]
+			seq := owner.NextSeq()
+			requests = append(requests, reqAsync(owner, vh.BuildMsg(vh.MModReq, &up, seq, vh.Grp(vh.TQueryURR, vh.URRID(1))), seq))
+		}
+		{
+			// ... and the release of what was kept must still work
+			up := ups[0]
+			seq := owner.NextSeq()
+			requests = append(requests, reqAsync(owner, vh.BuildMsg(vh.MModReq, &up, seq, vh.Rule{Kind: "FAR", ID: 1, Action: 2, Peer: 1, TEID: 9}.UpdateIE()), seq))
+		}
 	case "late-answers-while-the-loop-is-busy":
 		what = "the answers to a burst of reports arrive after their retransmission timers fired, while a slow data-plane call keeps the loop busy"
 		burst(c.Burst, 1, "direct")
@@ -609,6 +629,7 @@ func runC18(res *vh.Result) {
 		{Scenario: "real-ticks-slow-query-reassociate", Sessions: 300, URRs: 2, Periods: 1},
 		{Scenario: "ticker-blocked-while-its-period-empties", Sessions: 300, URRs: 2, Periods: 1},
 		{Scenario: "late-answers-while-the-loop-is-busy", Sessions: 4, URRs: 1, Periods: 1, Burst: 40},
+		{Scenario: "buffered-packet-burst", Sessions: 4, URRs: 1, Periods: 1, Burst: 1300},
 	}
 	n := vh.Tiered(len(grid), 300)
 	res.Cases(n, func(i int, rng *vh.Rng) {
@@ -616,7 +637,7 @@ func runC18(res *vh.Result) {
 		if i < len(grid) {
 			c = grid[i]
 		} else {
-			c = c18Cfg{Scenario: []string{"tick-then-reassociate", "tick-then-delete-storm", "multicast-burst", "direct-burst", "mixed", "failing-slow-tick-then-reassociate", "real-ticks-slow-query-reassociate", "ticker-blocked-while-its-period-empties", "late-answers-while-the-loop-is-busy"}[rng.Intn(9)],
+			c = c18Cfg{Scenario: []string{"tick-then-reassociate", "tick-then-delete-storm", "multicast-burst", "direct-burst", "mixed", "failing-slow-tick-then-reassociate", "real-ticks-slow-query-reassociate", "ticker-blocked-while-its-period-empties", "late-answers-while-the-loop-is-busy", "buffered-packet-burst"}[rng.Intn(10)],
 				Sessions: []int{10, 50, 100, 130, 200, 260, 300, 700, 1500}[rng.Intn(9)], URRs: rng.Range(1, 3), Periods: rng.Range(1, 3),
 				Burst: []int{100, 128, 129, 300, 600, 2000}[rng.Intn(6)], Producers: rng.Range(1, 8), KLatUs: []int{0, 0, 100, 1000}[rng.Intn(4)]}
 			if c.Sessions >= 700 {
